@@ -7,6 +7,9 @@
   arbitrary functions `Row → Except Err Tern`, expressions arbitrary `Row → Except Err Cell`.
 -/
 import Csvq.Lemmas.Dml
+import Csvq.Model.Skeleton
+import Csvq.Gen.DmlFacts
+import Csvq.Ref.DmlFacts
 namespace Csvq.C05
 open Csvq Csvq.Dml
 
@@ -1151,6 +1154,78 @@ theorem history_spec (stmts : List Stmt) : ∀ (s : State),
     | ok outs =>
       simp only [runSpec, Result.isError, Bool.not_false]
       rw [stmt_spec s.tables st outs hb]
+
+/-! ## the write-back of the Go functions, REGENERATED on every run (extract/dmlfacts → Csvq/Gen/DmlFacts.lean)
+
+  The model's `publish` replaces the table the statement NAMED (`setTable ts o.name o.table`) with the working copy, for
+  every kind of table.  Over the effect lists translated from the current lib/query/query.go: -/
+
+/-- the single-table functions store back the very view the load returned, the multi-table ones the copies `v` of the
+    tables their name list resolved to -/
+theorem gen_writeback_target :
+    Csvq.Skeleton.publishArgs Csvq.Gen.fxInsert = ["view", "view"] ∧ Csvq.Skeleton.publishArgs Csvq.Gen.fxReplace = ["view", "view"] ∧
+    Csvq.Skeleton.publishArgs Csvq.Gen.fxAddColumns = ["view", "view"] ∧ Csvq.Skeleton.publishArgs Csvq.Gen.fxDropColumns = ["view", "view"] ∧
+    Csvq.Skeleton.publishArgs Csvq.Gen.fxRenameColumn = ["view", "view"] ∧ Csvq.Skeleton.publishArgs Csvq.Gen.fxSetTableAttribute = ["view"] ∧
+    Csvq.Skeleton.publishArgs Csvq.Gen.fxCreateTable = ["view"] ∧
+    Csvq.Skeleton.publishArgs Csvq.Gen.fxUpdate = ["v", "v"] ∧ Csvq.Skeleton.publishArgs Csvq.Gen.fxDelete = ["v", "v"] ∧
+    (["loop(viewsToUpdate){", "restore_header(v)"] <:+: Csvq.Gen.fxUpdate) ∧
+    (["loop(viewsToDelete){", "loop(v.RecordSet){"] <:+: Csvq.Gen.fxDelete) ∧
+    (["loop(query.Tables){", "resolve_name"] <:+: Csvq.Gen.fxUpdate) ∧ (["loop(query.Tables){", "resolve_name"] <:+: Csvq.Gen.fxDelete) := by decide
+
+/-- … to the place that belongs to the table's kind — in memory (temporary table AND stdin): the block that declared it
+    (`ReplaceTemporaryTable`, never the innermost block); file: the transaction's cache — by the same guard in all seven
+    functions (the seeds C05-m3 and C05-m6 each changed one of these eight tokens in one function) -/
+theorem gen_writeback_by_table_kind :
+    (["if(inMemory){", "publish_temp(view)", "}", "else{", "if(isFile){", "publish_file(view)", "}", "}", "return"] <:+ Csvq.Gen.fxInsert) ∧
+    (["if(inMemory){", "publish_temp(view)", "}", "else{", "if(isFile){", "publish_file(view)", "}", "}", "return"] <:+ Csvq.Gen.fxReplace) ∧
+    (["if(inMemory){", "publish_temp(view)", "}", "else{", "if(isFile){", "publish_file(view)", "}", "}", "return"] <:+ Csvq.Gen.fxAddColumns) ∧
+    (["if(inMemory){", "publish_temp(view)", "}", "else{", "if(isFile){", "publish_file(view)", "}", "}", "return"] <:+ Csvq.Gen.fxDropColumns) ∧
+    (["if(inMemory){", "publish_temp(view)", "}", "else{", "if(isFile){", "publish_file(view)", "}", "}", "return"] <:+ Csvq.Gen.fxRenameColumn) ∧
+    (["if(inMemory){", "publish_temp(v)", "}", "else{", "if(isFile){", "publish_file(v)", "}", "}", "}", "return"] <:+ Csvq.Gen.fxUpdate) ∧
+    (["if(inMemory){", "publish_temp(v)", "}", "else{", "if(isFile){", "publish_file(v)", "}", "}", "}", "return"] <:+ Csvq.Gen.fxDelete) := by decide
+
+/-- UPDATE and DELETE load WITH internal record ids and write back by id; the others load without; every load is for update -/
+theorem gen_load_modes :
+    "load(forUpdate=true,ids=true)" ∈ Csvq.Gen.fxUpdate ∧ "load(forUpdate=true,ids=true)" ∈ Csvq.Gen.fxDelete ∧
+    "load(forUpdate=true,ids=false)" ∈ Csvq.Gen.fxInsert ∧ "load(forUpdate=true,ids=false)" ∈ Csvq.Gen.fxReplace ∧
+    "load(forUpdate=true,ids=false)" ∈ Csvq.Gen.fxAddColumns ∧ "load(forUpdate=true,ids=false)" ∈ Csvq.Gen.fxDropColumns ∧
+    "load(forUpdate=true,ids=false)" ∈ Csvq.Gen.fxRenameColumn ∧
+    (["internal_id", "if(err){", "return", "}"] <:+: Csvq.Gen.fxUpdate) ∧ "internal_id" ∈ Csvq.Gen.fxDelete := by decide
+
+/-- the reported counts: what each function returns on success and where that number comes from (the count of the
+    insert / replace helper; per table the number of distinct record ids written / removed; the number of distinct
+    dropped columns), and that processor.go stores exactly it (the sum over the tables for the multi-table forms) -/
+theorem gen_count_sources :
+    Csvq.Gen.retInsert = "view.FileInfo;insertRecords;err" ∧ Csvq.Gen.retReplace = "view.FileInfo;replaceRecords;err" ∧
+    Csvq.Gen.retUpdate = "fileInfos;updateRecords;nil" ∧ Csvq.Gen.retDelete = "fileInfos;deletedCounts;nil" ∧
+    Csvq.Gen.retAddColumns = "view.FileInfo;len(fields);err" ∧ Csvq.Gen.retDropColumns = "view.FileInfo;dropIndices.Len();err" ∧
+    Csvq.Gen.countSources = Csvq.Ref.countSources ∧
+    "updateRecords:=append(updateRecords,updatedCount[k])" ∈ Csvq.Gen.countSources ∧
+    "deletedCounts:=append(deletedCounts,len(deletedIndices[k]))" ∈ Csvq.Gen.countSources ∧
+    (["if{", "count_record", "}"] <:+: Csvq.Gen.fxUpdate) ∧
+    "store_affected(cnt)" ∈ Csvq.Gen.fxProcInsertQuery ∧ "store_affected(cnt)" ∈ Csvq.Gen.fxProcReplaceQuery ∧
+    "store_affected(cntTotal)" ∈ Csvq.Gen.fxProcUpdateQuery ∧ "store_affected(cntTotal)" ∈ Csvq.Gen.fxProcDeleteQuery := by decide
+
+/-- the model publishes to the named table whatever its kind: after a successful statement the entry of every target
+    holds the working copy, all other entries are untouched -/
+theorem model_publish_targets_named_table (ts : Tables) (n : String) (t : Table) :
+    (∀ m, m ≠ n → lookupT (setTable ts n t) m = lookupT ts m) ∧
+    (∀ t0, lookupT ts n = some t0 → lookupT (setTable ts n t) n = some t) := by
+  constructor
+  · intro m hm; exact lookupT_setTable_ne ts n m t (fun e => hm e.symm)
+  · induction ts with
+    | nil => intro t0 h; simp [lookupT] at h
+    | cons e rest ih =>
+      intro t0 h
+      unfold lookupT at h
+      unfold setTable
+      split at h
+      · rename_i he; simp [he, lookupT]
+      · rename_i he
+        simp only [he, if_false]
+        unfold lookupT
+        simp only [he, if_false]
+        exact ih t0 h
 
 /-! ## non-vacuity: the hypotheses are satisfiable and the operations do something -/
 
